@@ -849,7 +849,7 @@ int main(int argc, char** argv) {
                                 a.rw == c->rw() && a.skin == c->skinFactor() && relClose(a.connLen, c->connectionLength(), tol) && a.Ke == c->Ke();
                     if (!same)
                         log.fail("idempotence", "what=" + std::to_string(f.what) + " branch=" + cc.rec.branch() + " CF " + num(a.CF) + "->" + num(c->CF()) + " Kh " + num(a.Kh) + "->" + num(c->Kh()) +
-                                 " r0 " + num(a.r0) + "->" + num(c->r0()) + " rec=" + cc.rec.text());
+                                 " r0 " + num(a.r0) + "->" + num(c->r0()) + " rec=" + cc.rec.text().substr(0, cc.rec.text().size() - 1));
                     log.ok(); ++stats["idempotence.checked"]; ++stats["idempotence.what." + std::to_string(f.what)];
                 }
             }
@@ -929,10 +929,10 @@ int main(int argc, char** argv) {
                                 e.complnum = *op.sel[4];
                         }
                     }
-                    if (compdat) { ++stats["frame.retargeted"]; log.ok(); continue; }   // re-entered: only identity (checked above) is promised
+                    if (c.complnum != e.complnum) log.fail("frame.complnum", where + " cell=" + snapKey(o));    // re-entry keeps it, COMPLUMP sets it
+                    if (compdat) { ++stats["frame.retargeted"]; log.ok(); continue; }   // re-entered: beyond that only the relation (checked above) is promised
                     if (global) mult *= *global;
                     const bool scaled = anyW || global;
-                    if (c.complnum != e.complnum) log.fail("frame.complnum", where + " cell=" + snapKey(o));
                     // (NaN == NaN here: r0 <= rw with zero skin gives CF = inf and NaN companions)
                     bool ok = c.i == e.i && c.j == e.j && c.k == e.k && c.state == e.state && c.dir == e.dir && Snap::eq(c.Kh, e.Kh) && Snap::eq(c.r0, e.r0) && Snap::eq(c.rw, e.rw) &&
                               Snap::eq(c.skin, e.skin) && Snap::eq(c.depth, e.depth) && Snap::eq(c.Ke, e.Ke) && Snap::eq(c.connLen, e.connLen) && c.fromDeck == e.fromDeck;
